@@ -2,6 +2,7 @@ use crate::fw::{Ctx, Report, Verdict};
 
 pub mod c04;
 pub mod c05;
+pub mod c23;
 pub mod c26;
 pub mod srvchk;
 pub mod c10;
@@ -50,6 +51,7 @@ pub fn lookup(id: &str) -> Option<Entry> {
         "C06" => e!(c20),
         "C21" => e!(c21),
         "C22" => e!(c22),
+        "C23" | "C24" => e!(c23),
         "C26" | "C27" => e!(c26),
         _ => None,
     }
